@@ -236,22 +236,27 @@ def sameNormalForm (a b : CExpr) : Bool :=
 /-- `x ^ e` at ℚ for an integer exponent given as a rational -/
 def qpowInt (x e : Rat) : Option Rat := if e.den = 1 then some (zpowK x e.num) else none
 
-/-- value of the atom part with `π := p` and base constants from `env`; `none` when a
-    fractional exponent or an unknown name occurs -/
-def Atoms.evalQ (p : Rat) (env : List (String × Rat)) : Atoms → Option Rat
+/-- value of a π-free atom list with the base constants from `env`; `none` when π, a fractional
+    exponent or an unknown name occurs -/
+def Atoms.evalQ (env : List (String × Rat)) : Atoms → Option Rat
   | [] => some 1
   | (a, e) :: rest =>
-    if e = 0 then Atoms.evalQ p env rest else
     let base : Option Rat := match a with
-      | .pi => some p
-      | .num n => some (n : Rat)
+      | .pi => none
+      | .num n => if n = 0 then none else some (n : Rat)
       | .name s => env.lookup s
-    match base, Atoms.evalQ p env rest with
+    match base, Atoms.evalQ env rest with
     | some b, some r => (qpowInt b e).map (· * r)
     | _, _ => none
 
-def Mono.evalQ (p : Rat) (env : List (String × Rat)) (m : Mono) : Option Rat :=
-  (m.atoms.evalQ p env).map (m.coef * ·)
+/-- the π-free part of an atom list -/
+def Atoms.dropPi (m : Atoms) : Atoms := m.filter (fun p => p.1 != Atom.pi)
+
+/-- value of a monomial `coef · π^k · rest` (`k` an integer) with `π := p` -/
+def Mono.evalAtPi (p : Rat) (env : List (String × Rat)) (m : Mono) : Option Rat :=
+  match qpowInt p (m.atoms.exp .pi), m.atoms.dropPi.evalQ env with
+  | some pk, some r => some (m.coef * pk * r)
+  | _, _ => none
 
 /-! ### `add_constants` (unit_systems.py) and the namespace precedence (`__init__.py`) -/
 
